@@ -400,10 +400,15 @@ class BlockEval:
                 cur = nxt
             return done
         if isinstance(st, ast.With):
+            keys = []
             for item in st.items:
                 try:
                     cm = self._fold(item.context_expr, env)
                     entered = self.folder.enter_context(cm) if hasattr(self.folder, "enter_context") else TOP
+                    if hasattr(self.folder, "exit_context"):
+                        key = "__cm_%d_%d" % (id(st), len(keys))
+                        env[key] = cm
+                        keys.append(key)
                 except Unknown:
                     entered = TOP
                     eff = eff + [("with", ast.unparse(item.context_expr)[:80])]
@@ -412,7 +417,31 @@ class BlockEval:
                         self.folder.assign(item.optional_vars, entered, env)
                     except Unknown:
                         pass
-            return self._block(st.body, [(env, assume, eff)], outs)
+            if not keys:
+                return self._block(st.body, [(env, assume, eff)], outs)
+            inner = []
+            fall = self._block(st.body, [(env, assume, eff)], inner)
+            res = []
+            for e2, a2, f2 in fall:
+                try:
+                    for key in reversed(keys):
+                        self.folder.exit_context(e2.pop(key))
+                    res.append((e2, a2, f2))
+                except FoldedRaise as ex:
+                    outs.append(Outcome("raise", ex.name, e2, a2, f2))
+                except Unknown as ex:
+                    outs.append(Outcome("raise", None, e2, a2, f2, opaque="context exit: %s" % ex))
+            for o in inner:
+                try:
+                    for key in reversed(keys):
+                        if key in o.env:
+                            self.folder.exit_context(o.env.pop(key), o.value if o.term == "raise" else None)
+                    outs.append(o)
+                except FoldedRaise as ex:
+                    outs.append(Outcome("raise", ex.name, o.env, o.assumptions, o.effects))
+                except Unknown as ex:
+                    outs.append(Outcome("raise", None, o.env, o.assumptions, o.effects, opaque="context exit: %s" % ex))
+            return res
         if isinstance(st, ast.Try):
             inner = []
             fall = self._block(st.body, [state], inner)
